@@ -70,10 +70,17 @@ func (m *histModel) genLoad(v ssa.Value) (string, bool) {
 	return "", false
 }
 
+// stopAtGen: origin walks stop at loads of generation fields (the engine would otherwise look through such a load to the
+// map last stored into the field).
+func (m *histModel) stopAtGen(v ssa.Value) bool {
+	_, ok := m.genLoad(v)
+	return ok
+}
+
 // genOf: every origin of v is a load of the same generation field.
 func (m *histModel) genOf(p *eng.Prog, v ssa.Value) (string, bool) {
 	g := ""
-	for _, o := range p.Origins(v, eng.OriginOpts{ThroughConvert: true, Interproc: true}) {
+	for _, o := range p.Origins(v, eng.OriginOpts{ThroughConvert: true, Interproc: true, Stop: m.stopAtGen}) {
 		x, ok := m.genLoad(o)
 		if !ok || (g != "" && g != x) {
 			return "", false
@@ -85,7 +92,7 @@ func (m *histModel) genOf(p *eng.Prog, v ssa.Value) (string, bool) {
 
 // anyGen: some origin of v is a load of a generation field.
 func (m *histModel) anyGen(p *eng.Prog, v ssa.Value) bool {
-	for _, o := range p.Origins(v, eng.OriginOpts{ThroughConvert: true, Interproc: true}) {
+	for _, o := range p.Origins(v, eng.OriginOpts{ThroughConvert: true, Interproc: true, Stop: m.stopAtGen}) {
 		if _, ok := m.genLoad(o); ok {
 			return true
 		}
@@ -454,7 +461,7 @@ func ruleHistory(c *Ctx) {
 								continue
 							}
 							fresh := true
-							for _, o := range p.Origins(v, eng.OriginOpts{ThroughConvert: true, Interproc: true}) {
+							for _, o := range p.Origins(v, eng.OriginOpts{ThroughConvert: true, Interproc: true, Stop: m.stopAtGen}) {
 								if _, isMk := o.(*ssa.MakeMap); !isMk {
 									fresh = false
 								}
@@ -742,7 +749,7 @@ func ruleHistory(c *Ctx) {
 // generation at the call site under analysis (a set type's contains/insert methods receive the generation as receiver).
 func (m *histModel) genOfCtx(p *eng.Prog, v ssa.Value, ctx map[*ssa.Parameter]string) (string, bool) {
 	g := ""
-	for _, o := range p.Origins(v, eng.OriginOpts{ThroughConvert: true}) {
+	for _, o := range p.Origins(v, eng.OriginOpts{ThroughConvert: true, Stop: m.stopAtGen}) {
 		x, ok := m.genLoad(o)
 		if !ok {
 			if pa, isP := o.(*ssa.Parameter); isP && ctx[pa] != "" {
